@@ -10,6 +10,7 @@
 import json, os, re, shutil, subprocess, sys, time
 
 V = os.path.dirname(os.path.dirname(os.path.abspath(__file__)))
+BASE = os.environ.get('SEED_BASE', 'seeded')   # 'benign' for behaviour-preserving refactorings (every alarm there is a false alarm)
 REPO = '/repo'
 ENV = dict(os.environ, GOFLAGS='-mod=mod', GOPROXY='off', GOSUMDB='off', GOTOOLCHAIN='local')
 
@@ -162,10 +163,10 @@ def run(sid, props):
 
 
 def runiso(slot, sid, props):
-    d = os.path.join(V, 'seeded', sid)
+    d = os.path.join(V, BASE, sid)
     meta = json.load(open(os.path.join(d, 'meta.json')))
     if not props:
-        props = [meta['property']]
+        props = meta.get('properties') or [meta['property']]
     base = '/root/seedrun/' + slot
     v2, r2 = base + '/verif', base + '/repo'
     os.makedirs(base, exist_ok=True)
